@@ -67,21 +67,44 @@ func ruleStackMax(w *World, r *Report) {
 	good := false
 	why := "no update max(acc, f[i]) that executes for every node"
 	for _, e := range phi.Edges {
-		c, okc := e.(*ssa.Call)
-		if !okc || c.Call.StaticCallee() == nil || len(c.Call.Args) != 2 {
-			continue
-		}
-		callee := c.Call.StaticCallee()
-		if !isMaxFunc(callee) {
-			continue
-		}
 		var other ssa.Value
-		switch {
-		case c.Call.Args[0] == ssa.Value(phi):
-			other = c.Call.Args[1]
-		case c.Call.Args[1] == ssa.Value(phi):
-			other = c.Call.Args[0]
-		default:
+		var updBlock *ssa.BasicBlock
+		if c, okc := e.(*ssa.Call); okc && c.Call.StaticCallee() != nil && len(c.Call.Args) == 2 && isMaxFunc(c.Call.StaticCallee()) {
+			switch {
+			case c.Call.Args[0] == ssa.Value(phi):
+				other = c.Call.Args[1]
+			case c.Call.Args[1] == ssa.Value(phi):
+				other = c.Call.Args[0]
+			}
+			updBlock = c.Block()
+		} else if q, okq := e.(*ssa.Phi); okq && len(q.Edges) == 2 {
+			// the same inlined: acc' = phi(acc, x) with x taken exactly under acc < x (x > acc)
+			for i2, e2 := range q.Edges {
+				if e2 == ssa.Value(phi) {
+					continue
+				}
+				if q.Edges[1-i2] != ssa.Value(phi) {
+					continue
+				}
+				pred := q.Block().Preds[i2]
+				for _, f := range append(factsAtLocal(pred), factsAtEdgeTo(pred, q.Block())...) {
+					bo, okb := f.Cond.(*ssa.BinOp)
+					if !okb || !f.Truth {
+						continue
+					}
+					if x, y, okc := orientCmp(bo, token.LSS); okc && x == ssa.Value(phi) && y == e2 {
+						other = e2
+					}
+				}
+			}
+			// the comparison itself is the update: it executes wherever the test block does
+			if other != nil {
+				if in, okI := other.(ssa.Instruction); okI {
+					updBlock = in.Block()
+				}
+			}
+		}
+		if other == nil || updBlock == nil {
 			continue
 		}
 		addr, okl := isLoad(other)
@@ -110,7 +133,7 @@ func ruleStackMax(w *World, r *Report) {
 			why = "the maximum is not taken over a full range of the program's nodes"
 			continue
 		}
-		if !loopVisitsAll(hdr, c.Block()) {
+		if !loopVisitsAll(hdr, updBlock) {
 			why = "the update of the maximum does not execute for every node"
 			continue
 		}
